@@ -43,6 +43,16 @@ static inline W w_add(const W& a, const W& b)
     }
     return r;
 }
+// a - b (caller guarantees a >= b)
+static inline W w_sub(const W& a, const W& b)
+{
+    W r; unsigned borrow = 0;
+    for (int i = 0; i < WREF_LIMBS; i++) {
+        const unsigned __int128 d = (unsigned __int128)a.l[i] - b.l[i] - borrow;
+        r.l[i] = (uint64_t)d; borrow = (unsigned)((d >> 64) & 1);
+    }
+    return r;
+}
 static inline int w_cmp(const W& a, const W& b)
 {
     int r = 0;
